@@ -121,6 +121,7 @@ counters!(
     o4_model_probes,
     o4_differential_probes,
     o6_utc_probes,
+    o6_zone_strings_judged,
     o6_tai_probes,
     o6_full_sweeps,
     kf1_hits,
@@ -1806,6 +1807,7 @@ impl Sim {
                         }));
                         let mut w = self.world.borrow_mut();
                         w.ctr.add(C::o6_utc_probes, st.utc_probes);
+                        w.ctr.add(C::o6_zone_strings_judged, st.zone_strings_judged);
                         w.ctr.add(C::o6_tai_probes, st.tai_probes);
                         w.ctr.add(C::o6_full_sweeps, do_full as u64);
                         w.ctr.add(C::kf1_hits, st.hits.kf1);
